@@ -40,7 +40,10 @@ GRID = {
     "calculate_voltage_angles": [True, False, "auto", 1],
     "init": ["auto", "flat", "dc", "results"],
     "max_iteration": ["auto", 10, 25],
-    "tolerance_mva": [1e-8, 1e-3, 1e-6],
+    # float option: besides clearly different values, values very close to the default on both sides (1 ulp, 1e-7 relative,
+    # factor 1.5) and much smaller ones - "passed" must not depend on how far the value is from the default
+    "tolerance_mva": [1e-8, 1e-3, 1e-6, 1e-10, 1e-9, 5e-9, 9.999999e-9, 1.0000001e-8, 1.5e-8,
+                      float(np.nextafter(1e-8, 1.0)), float(np.nextafter(1e-8, 0.0)), 1e-14],
     "trafo_model": ["t", "pi"],
     "trafo_loading": ["current", "power"],
     "enforce_q_lims": [False, True, 0],
@@ -63,7 +66,7 @@ GRID = {
     "permc_spec": [None, "NATURAL"],
     "init_vm_pu": [None, "auto", "flat", 1.0],
     "init_va_degree": [None, "dc", "flat"],
-    "delta_q": [0, 1e-10],
+    "delta_q": [0, 1e-10, 1e-12, 5e-9],
     "tdpf_update_r_theta": [True, False],
     "recycle": [None, False],
     "foo_option": [3, 4],
@@ -75,7 +78,7 @@ REAL_GRID = {
     "calculate_voltage_angles": [True, False],
     "init": ["auto", "flat", "dc"],
     "max_iteration": ["auto", 10, 25],
-    "tolerance_mva": [1e-8, 1e-3, 1e-6],
+    "tolerance_mva": [1e-8, 1e-3, 1e-6, 5e-9, 1.5e-8],
     "trafo_model": ["t", "pi"],
     "trafo_loading": ["current", "power"],
     "enforce_q_lims": [False, True],
@@ -410,7 +413,7 @@ def check_cases(ctx, cases, label):
             ctx.count("explicit_default_collides_with_stored")
     for k in list(GRID) + ["mode", "ac", "delta", "init_results", "p_lim_default", "q_lim_default", "pf", "hv", "flat", "dc"]:
         INT.name(k)
-    model = ctx.coq_eval("c34_" + label, "Base.QN C34.Model", terms, prelude=INT.prelude(), shard=150)
+    model = ctx.coq_eval("c34_" + label, "Base.QN C34.Model", terms, prelude=INT.prelude(), shard=120, timeout=900)
     for case, (o, passed, g), m in zip(cases, obs, model):
         ctx.corr_checked += 1
         m = INT.decode(m)
@@ -438,6 +441,81 @@ def real_cases(ctx, rng, n):
             ctx.disagreement("net._options after the whole runpp differs from the options right after _init_runpp_options: %s" % _diff(o_real, o_stub), case)
 
 
+# ------------------------------------------------------------------ the run_control branch of runpp (outside the model)
+CTRL_GRID = {k: v for k, v in REAL_GRID.items() if k not in ("numba",)}
+CTRL_GRID["switch_rx_ratio"] = [2, 1]
+CTRL_GRID["trafo3w_losses"] = ["hv", "star"]
+
+
+def controlled_cases(ctx, rng, n):
+    """runpp(net, run_control=True, continue_on_divergence=..., **explicit) with a controller in the net: EVERY power flow
+    that is run inside (initial run, one per control iteration, the retry after repair_control) must be configured exactly
+    like the plain call runpp(net, **explicit) - explicit arguments must not get lost on any of these paths.
+    The numerical pipeline is replaced by a recorder that can simulate a diverging power flow."""
+    from pandapower.control.basic_controller import Controller
+    from pandapower.auxiliary import LoadflowNotConverged
+
+    class StepCtrl(Controller):
+        def __init__(self, net, steps=1, **kw):
+            super().__init__(net, **kw)
+            self.steps, self.done, self.repairs = steps, 0, 0
+
+        def is_converged(self, net):
+            return self.done >= self.steps
+
+        def control_step(self, net):
+            self.done += 1
+
+        def repair_control(self, net):
+            self.repairs += 1
+
+    for _ in range(n):
+        case = random_case(rng, CTRL_GRID, ["plain", "zip", "gen"])
+        case["prerun"] = False
+        explicit = {k: v for k, v in case["explicit"].items() if k != "run_control"}
+        stored = case["stored"]
+        base = base_net(case)
+        plain, _ = impl_options(base, stored, explicit, stub=True)
+        if plain[0:1] == ["err"]:
+            continue
+        fail = rng.choice([[], [2], [1], [2, 3], [3]])
+        cod = rng.random() < 0.75
+        net = copy.deepcopy(base)
+        StepCtrl(net, steps=rng.randint(1, 2))
+        net.user_pf_options = {}
+        if stored:
+            pp.set_user_pf_options(net, **stored)
+        inner = []
+        orig = prun._powerflow
+
+        def pf(n_, **kw):
+            inner.append(canon_dict(copy.deepcopy(dict(n_._options))))
+            if len(inner) in fail:
+                raise LoadflowNotConverged("simulated divergence of inner power flow %d" % len(inner))
+            n_["converged"] = True
+        prun._powerflow = pf
+        outcome = "ok"
+        try:
+            try:
+                pp.runpp(net, run_control=True, continue_on_divergence=cod, **explicit)
+            except Exception as e:
+                outcome = type(e).__name__
+        finally:
+            prun._powerflow = orig
+        desc = {"controlled": True, "stored": stored, "explicit": explicit, "diverging_runs": fail, "continue_on_divergence": cod}
+        for j, o in enumerate(inner):
+            if o != plain:
+                ctx.violation("spec", "power flow #%d inside runpp(run_control=True%s) is not configured like the plain call with the "
+                              "same explicit arguments: %s" % (j + 1, ", continue_on_divergence=True" if cod else "", _diff(o, plain)), desc)
+                break
+        ctx.case(desc, nontrivial=bool(set(stored) & set(explicit)) and len(inner) >= 2)
+        ctx.count("controlled_runs")
+        ctx.count("controlled_inner_power_flows", len(inner))
+        ctx.count("controlled_outcome_" + outcome)
+        if cod and any(f <= len(inner) for f in fail):
+            ctx.count("controlled_with_repair_retry")
+
+
 def corpus_cases():
     import glob, os
     out = []
@@ -452,8 +530,9 @@ def run(ctx):
     if cor:
         check_cases(ctx, cor, "corpus")
     check_cases(ctx, single_cases(), "single")
-    check_cases(ctx, [random_case(rng) for _ in range(ctx.n(220, 6000))], "multi")
-    real_cases(ctx, rng, ctx.n(24, 500))
+    check_cases(ctx, [random_case(rng) for _ in range(ctx.n(150, 3000))], "multi")
+    real_cases(ctx, rng, ctx.n(16, 500))
+    controlled_cases(ctx, rng, ctx.n(40, 800))
     ctx.extra["exhaustive_single_key_pairs"] = True
 
 
